@@ -591,6 +591,115 @@ fn ambient_stage(ctx: &Ctx, kind: Kind) -> JobOut {
     out
 }
 
+/// (H) one large window (8192 values) per windowed indicator: code paths that only exist for big
+/// windows (chunked / parallel scans, worker budgets) must still be deterministic.  Twin instances
+/// on a quiet thread must agree bit for bit (deterministic part), and so must an instance that runs
+/// while twelve other threads keep large-window instances busy (SAMPLING of real schedules).
+fn big_window_stage(ctx: &Ctx, kind: Kind, steps: usize) -> JobOut {
+    use std::sync::atomic::{AtomicBool, Ordering};
+    let mut out = JobOut::default();
+    let n = 8192usize;
+    let cfg = if kind.has_mult() { Cfg::pm(kind, n, 2.0) } else { Cfg::p1(kind, n) };
+    let len = n + steps;
+    let op_at = |i: usize| -> Op {
+        let x = 50.0 + ((i * 37) % 101) as f64 * 0.37 + (i % 7) as f64 * 0.013;
+        if kind.has_scalar() {
+            Op::S(x)
+        } else {
+            Op::B(Bar { o: x, h: x * 1.01, l: x * 0.99, c: x * (0.995 + 0.005 * (i % 3) as f64), v: 1.0 + (i % 4) as f64 })
+        }
+    };
+    let run_one = |with_clone: bool| -> Result<Vec<Out>, ()> {
+        std::panic::catch_unwind(std::panic::AssertUnwindSafe(|| {
+            let mut s = make(&cfg);
+            let mut tail = vec![];
+            for i in 0..len {
+                if with_clone && i == n {
+                    s = s.dup();
+                }
+                let o = s.apply(&op_at(i));
+                if i >= n - 2 {
+                    tail.push(o);
+                }
+            }
+            tail
+        }))
+        .map_err(|_| ())
+    };
+    let fail = |out: &mut JobOut, what: &str, i: usize, a: &Out, b: &Out| {
+        out.fail(
+            Violation::new(PROP, &cfg, &[], "not-deterministic")
+                .obs(out2s(a))
+                .exp(out2s(b))
+                .det(format!("{}: output {} of the same stream (x_i = 50 + ((37 i) mod 101)*0.37 + (i mod 7)*0.013, {} inputs) differs from the first quiet run", what, n - 2 + i + 1, len))
+                .with("generator", format!("big-window stream, period {}", n)),
+        );
+    };
+    out.stats.traces += 4;
+    out.stats.transitions += 4 * len as u64;
+    let q = match run_one(false) {
+        Ok(q) => q,
+        Err(()) => {
+            out.fail(Violation::new(PROP, &cfg, &[], "panic").obs("panic".into()).exp("outputs".into()));
+            return out;
+        }
+    };
+    for (what, with_clone) in [("a second fresh instance on the same quiet thread", false), ("an instance replaced by its clone once the window was full", true)] {
+        match run_one(with_clone) {
+            Ok(r) => {
+                out.stats.evaluations += r.len() as u64;
+                if let Some(i) = (0..r.len()).find(|&i| !r[i].bits_eq(&q[i])) {
+                    fail(&mut out, what, i, &r[i], &q[i]);
+                    return out;
+                }
+            }
+            Err(()) => {
+                out.fail(Violation::new(PROP, &cfg, &[], "panic").obs("panic".into()).exp("outputs".into()));
+                return out;
+            }
+        }
+    }
+    // under load: other threads keep large-window instances (of the O(window)-per-step kinds) busy
+    let stop = AtomicBool::new(false);
+    let loaded = std::thread::scope(|sc| {
+        for b in 0..12usize {
+            let stop = &stop;
+            sc.spawn(move || {
+                // eight instances of the kind under test (a per-kind global budget / scratch area would be
+                // contended by exactly these), four of the O(window)-per-step kinds
+                let bk = if b < 8 { kind } else { [Kind::Er, Kind::Mad, Kind::Cci, Kind::Er][b % 4] };
+                let bcfg = Cfg::p1(bk, 8192);
+                let _ = std::panic::catch_unwind(std::panic::AssertUnwindSafe(|| {
+                    let mut s = make(&bcfg);
+                    let mut i = 0usize;
+                    while !stop.load(Ordering::Relaxed) {
+                        let x = 10.0 + ((i * 13 + b) % 89) as f64 * 0.21;
+                        let _ = if bk.has_scalar() { s.apply(&Op::S(x)) } else { s.apply(&Op::B(Bar { o: x, h: x * 1.02, l: x * 0.98, c: x, v: 1.0 + (i % 3) as f64 })) };
+                        i += 1;
+                    }
+                }));
+            });
+        }
+        // give the background threads time to fill their windows so that their scans are the big ones
+        std::thread::sleep(std::time::Duration::from_millis(150));
+        let r = run_one(false);
+        stop.store(true, Ordering::Relaxed);
+        r
+    });
+    out.stats.add("big_window_runs_under_load(sampling)", 1);
+    let _ = ctx;
+    match loaded {
+        Ok(r) => {
+            out.stats.evaluations += r.len() as u64;
+            if let Some(i) = (0..r.len()).find(|&i| !r[i].bits_eq(&q[i])) {
+                fail(&mut out, "an instance fed while twelve other threads were feeding large-window instances (eight of the same kind, four of ER / MAD / CCI)", i, &r[i], &q[i]);
+            }
+        }
+        Err(()) => out.fail(Violation::new(PROP, &cfg, &[], "panic").obs("panic".into()).exp("outputs".into())),
+    }
+    out
+}
+
 /// Supplementary, SAMPLING: free-running threads each owning distinct instances.
 fn free_running(ctx: &Ctx, rounds: usize, out: &mut JobOut) {
     let threads = 16usize;
@@ -832,13 +941,24 @@ pub fn run(ctx: &Ctx) -> CheckResult {
         free_running(ctx, rounds, &mut o);
         res.absorb(o);
     }
+    // (H) large windows, quiet twins and under load - one kind at a time (the load is part of the stage)
+    if !res.out.failed() {
+        let kinds: Vec<Kind> = ALL_KINDS.iter().copied().filter(|k| k.allocates() && k.nperiods() == 1).collect();
+        for k in kinds {
+            let o = big_window_stage(ctx, k, if th { 64 } else { 24 });
+            res.absorb(o);
+            if res.out.failed() {
+                break;
+            }
+        }
+    }
     let audit = ownership_audit();
     res.extra.insert("ownership_audit_hits".into(), json!(audit));
     res.extra.insert("workers".into(), json!(k_workers));
     res.require(res.out.stats.counters.get("schedules_threads").copied().unwrap_or(0) > 1 || res.out.failed(), "no multi-thread schedule was executed");
     res.rule = "case = (configuration, history h at which the clone is taken, schedule): objects {original after h, its clone, unrelated instance with other parameters} each get a continuation; a schedule = interleaving of their operations + assignment of every step to a real OS worker thread; oracle = every output bit-identical to a fresh instance replaying that object's own operations on the main thread; non-trivial = schedule executed on >= 1 worker thread other than main".into();
     res.bounds = format!(
-        "all 22 indicators, periods {{1,3}}, each part on the exact alphabet and on an inexact one (x -> 0.7x+0.013, so that summation order and buffer layout are observable under bit-equality); every history in seq(4 symbols, {hist_depth}) as clone point; (A) all {} merges of 3x{cont_len} ops on one thread; (B) histories up to length {thread_hist_depth}: 3 canonical merges x all worker assignments up to renaming on {k_workers} real threads x clone taken on worker 0/1; (B') for the empty history (thorough: histories up to length 1) the FULL product of all merges x all worker assignments x clone worker; (C) all 16x16 continuation pairs for original/clone under 3 sequential schedules; (G) Default::default() vs new(reported parameters) bit for bit; the merges also on an alphabet containing zeros; (F) ambient state: instances with the same parameters and history (periods 2, 32, 33, 64, 90) built first / after others were used past their wrap-around and dropped / as lock-step siblings / on another thread must agree bit for bit; (E) Clone::clone_from between instances with different parameters and histories (copy must replay like the source, source untouched); (D) periods 1..5(6): clone after every history up to depth 2(3) and after every prefix up to 2n+2 of two default streams, every continuation of n+2 inputs over 3 symbols for the clone while the original is fed different inputs in between; plus {rounds} free-running 16-thread rounds (SAMPLING, not part of the exhaustive claim)",
+        "all 22 indicators, periods {{1,3}}, each part on the exact alphabet and on an inexact one (x -> 0.7x+0.013, so that summation order and buffer layout are observable under bit-equality); every history in seq(4 symbols, {hist_depth}) as clone point; (A) all {} merges of 3x{cont_len} ops on one thread; (B) histories up to length {thread_hist_depth}: 3 canonical merges x all worker assignments up to renaming on {k_workers} real threads x clone taken on worker 0/1; (B') for the empty history (thorough: histories up to length 1) the FULL product of all merges x all worker assignments x clone worker; (C) all 16x16 continuation pairs for original/clone under 3 sequential schedules; (G) Default::default() vs new(reported parameters) bit for bit; the merges also on an alphabet containing zeros; (F) ambient state: instances with the same parameters and history (periods 2, 32, 33, 64, 90) built first / after others were used past their wrap-around and dropped / as lock-step siblings / on another thread must agree bit for bit; (E) Clone::clone_from between instances with different parameters and histories (copy must replay like the source, source untouched); (D) periods 1..5(6): clone after every history up to depth 2(3) and after every prefix up to 2n+2 of two default streams, every continuation of n+2 inputs over 3 symbols for the clone while the original is fed different inputs in between; (H) period 8192: twin instances and a clone taken at the full window agree bit for bit on a quiet thread, and (SAMPLING) an instance fed while twelve other threads keep large-window instances busy (eight of the same kind); plus {rounds} free-running 16-thread rounds (SAMPLING, not part of the exhaustive claim)",
         merges(&vec![cont_len; 3]).len()
     );
     let mut assumptions = vec![
